@@ -107,7 +107,25 @@ func c14R1(w *World, r *Report) {
 		if fn.Parent() == nil || w.name(fn.Parent()) != "MemoryMetaStore.GetMaybeFilesForQuery" {
 			continue
 		}
-		fl := newFlow(w, fn, lockClassifier(w, nil, nil))
+		icl := lockClassifier(w, nil, nil)
+		innerCall := icl.Call
+		icl.Call = func(site ssa.Instruction, c *ssa.CallCommon) *Event {
+			e := innerCall(site, c)
+			if f := w.staticCallee(c); f != nil && strings.HasSuffix(f.String(), "Unlock") {
+				return mergeEvents(e, &Event{May: []string{"unlocked"}})
+			}
+			return e
+		}
+		fl := newFlow(w, fn, icl)
+		// the candidate set is ONE snapshot: every read of files happens in the first
+		// read-locked section (a second section would see a different map state)
+		for _, fa := range w.fieldAccesses("MemoryMetaStore") {
+			if fa.Fn != fn || fa.Field != "files" {
+				continue
+			}
+			f := fl.Before(fa.Instr)
+			r.check(f != nil && !f.May("unlocked"), rule, "MemoryMetaStore.iterator:single-snapshot", w.instrPos(fa.Instr), "files read only inside the first read-locked section", "the iterator reads the file map again after releasing the lock: a merge commit between the two sections removes sources the query has not reached and adds an output it never lists — rows silently missing with a nil error")
+		}
 		ny := 0
 		eachInstr(fn, func(in ssa.Instruction) {
 			c, ok := in.(*ssa.Call)
